@@ -467,6 +467,18 @@ def _timer_run(run, s, start_day, ndays, rng, with_app, zone):
         for T in rng.sample(sorted(probes), min(len(probes), rng.choice([1, 2, 4]))):
             rewrites[T] = (rng.randrange(7), [(t, rng.choice([1, 2, 3, 4, 5, 6, 8, 9, None])) for t in rand_times(rng, rng.randrange(0, 5))],
                            rng.random() < 0.3)
+    # ... and once it is written wrongly (values of another datatype: the object reports a configuration error) and repaired
+    # later: from the repair on the schedule runs again
+    faults = {}
+    if rewrites and len(probes) > 4 and rng.random() < 0.5:
+        free = [T for T in sorted(probes) if T not in rewrites]
+        if len(free) >= 2:
+            i = rng.randrange(len(free) - 1)
+            j = rng.randrange(i + 1, min(len(free), i + 1 + rng.choice([1, 3, 40])))
+            faults[free[i]] = "break"
+            faults[free[j]] = "repair"
+            rewrites = {T: v for T, v in rewrites.items() if not (free[i] <= T <= free[j])}
+    faulty = False
     wit["rewrites"] = {}
     import heapq
     heap = sorted(probes)
@@ -479,6 +491,30 @@ def _timer_run(run, s, start_day, ndays, rng, with_app, zone):
         done_T.add(T)
         try:
             CLK.drive(until=float(T), max_steps=20000)
+            if T in faults:
+                wall_date, wall_time = local_wall(T)
+                wd = wall_date.isoweekday() - 1
+                wit["rewrites"]["%s %02d:%02d:%02d" % ((wall_date,) + wall_time[:3])] = "weekday %d written with values of another datatype" % wd \
+                    if faults[T] == "break" else "weekday %d written as it was" % wd
+                if faults[T] == "break":
+                    faults["wd"] = wd
+                    so.WriteProperty("weeklySchedule", DailySchedule(daySchedule=[TimeValue(time=(12, 0, 0, 0), value=Real(1.5))]), arrayIndex=wd + 1, direct=True)
+                    faulty = True
+                    if so.reliability == "noFaultDetected":
+                        run.violation("wrong-datatype-in-schedule-not-reported-as-fault", dict(wit, at=T))
+                        return
+                    run.count("schedules_broken_while_running")
+                else:
+                    wd = faults["wd"]
+                    so.WriteProperty("weeklySchedule", DailySchedule(daySchedule=[TimeValue(time=tuple(tv), value=V(val)) for tv, val in s.weekly[wd]]),
+                                     arrayIndex=wd + 1, direct=True)
+                    faulty = False
+                    if so.reliability != "noFaultDetected":
+                        run.violation("repaired-schedule-still-reported-faulty", dict(wit, at=T, reliability=str(so.reliability)))
+                        return
+                    run.count("schedules_repaired_while_running")
+                    heapq.heappush(heap, T + 1)
+                continue
             if T in rewrites:
                 wd, lst, whole = rewrites[T]
                 s.weekly[wd] = lst
@@ -510,6 +546,9 @@ def _timer_run(run, s, start_day, ndays, rng, with_app, zone):
         except Exception as err:
             run.violation("rewriting-a-running-schedule-raised/" + type(err).__name__, dict(wit, at=T, error=repr(err)[:120]))
             return
+        if faulty:
+            run.count("timer_probes_skipped_while_the_configuration_is_faulty")
+            continue
         # (on a clock that moves while the code runs the probe is a few milliseconds after T)
         wall_date, wall_time = local_wall(max(float(T), CLK.now))
         dt = "%s %02d:%02d:%02d.%02d" % ((wall_date,) + wall_time)
